@@ -32,7 +32,9 @@ func BoundSites(fn *ssa.Function) []BoundSite {
 				out = append(out, BoundSite{fn, in, "slice"})
 			}
 		case *ssa.MakeSlice:
-			if _, isC := ConstInt(x.Len); !isC {
+			_, lenC := ConstInt(x.Len)
+			_, capC := ConstInt(x.Cap)
+			if !lenC || !capC {
 				out = append(out, BoundSite{fn, in, "make"})
 			}
 		case *ssa.BinOp:
@@ -487,16 +489,34 @@ func ProveBound(site BoundSite) string {
 	case *ssa.Index:
 		return proveIndex(b, x.X, x.Index)
 	case *ssa.MakeSlice:
-		if nonNegative(x.Len) {
-			return "length is non-negative by construction"
+		// both sizes: not negative, and not an unbounded value taken from the input (a huge size panics in makeslice or
+		// exhausts memory): bounded by a constant, a narrow integer type, or the length of data already in memory
+		why := ""
+		for _, sz := range []ssa.Value{x.Len, x.Cap} {
+			if _, isC := ConstInt(sz); isC {
+				continue
+			}
+			lo := ""
+			switch {
+			case nonNegative(sz):
+				lo = "non-negative by construction"
+			default:
+				if k, ok := lowerBoundGuard(b, sz); ok && k >= 0 {
+					lo = fmt.Sprintf("guarded >= %d", k)
+				} else if k, ok := lowerBoundExpr(b, sz, 0); ok && k >= 0 {
+					lo = fmt.Sprintf(">= %d by arithmetic on guarded lengths", k)
+				}
+			}
+			if lo == "" {
+				return ""
+			}
+			hi := boundedAbove(b, sz, map[ssa.Value]bool{}, 0)
+			if hi == "" {
+				return ""
+			}
+			why = "size " + lo + ", " + hi
 		}
-		if k, ok := lowerBoundGuard(b, x.Len); ok && k >= 0 {
-			return fmt.Sprintf("guarded: length >= %d", k)
-		}
-		if k, ok := lowerBoundExpr(b, x.Len, 0); ok && k >= 0 {
-			return fmt.Sprintf("length >= %d by arithmetic on guarded lengths", k)
-		}
-		return ""
+		return why
 	case *ssa.Slice:
 		return proveSlice(b, x)
 	case *ssa.BinOp:
@@ -505,6 +525,190 @@ func ProveBound(site BoundSite) string {
 		}
 	}
 	return ""
+}
+
+// MaxAlloc is the largest constant size accepted for an allocation whose size derives from the input.
+const MaxAlloc = int64(1) << 32
+
+// boundedAbove: v cannot be an arbitrarily large value chosen by the input: it is at most a constant <= 2^32, fits a
+// narrow integer type, or is at most (a small multiple of) the length of data already held in memory.
+func boundedAbove(b *ssa.BasicBlock, v ssa.Value, seen map[ssa.Value]bool, d int) string {
+	if d > 10 {
+		return ""
+	}
+	v = StripConv(v)
+	if seen[v] {
+		return "cyclic" // coinductive: a cycle through bounded operations
+	}
+	seen[v] = true
+	if k, ok := ConstInt(v); ok {
+		if k <= MaxAlloc {
+			return "constant"
+		}
+		return ""
+	}
+	if bt, ok := v.Type().Underlying().(*types.Basic); ok && bt.Info()&types.IsInteger != 0 && intBits(bt) <= 32 {
+		return "fits " + bt.Name()
+	}
+	if ub, ok := upperBoundVal(b, v); ok && ub <= MaxAlloc {
+		return fmt.Sprintf("at most %d", ub)
+	}
+	// a dominating guard v <= w / v < w with w bounded
+	for _, g := range Guards(b) {
+		a, isCmp := AtomOf(g)
+		if !isCmp {
+			continue
+		}
+		if sameSSA(a.LV, v) && (a.Op == "<" || a.Op == "<=") && a.RV != nil {
+			if w := boundedAbove(b, a.RV, seen, d+1); w != "" {
+				return "guarded by a bounded value (" + w + ")"
+			}
+		}
+		if sameSSA(a.RV, v) && (a.Op == ">" || a.Op == ">=") && a.LV != nil {
+			if w := boundedAbove(b, a.LV, seen, d+1); w != "" {
+				return "guarded by a bounded value (" + w + ")"
+			}
+		}
+	}
+	all := func(vs ...ssa.Value) string {
+		w := ""
+		for _, x := range vs {
+			if w = boundedAbove(b, x, seen, d+1); w == "" {
+				return ""
+			}
+		}
+		return w
+	}
+	switch x := v.(type) {
+	case *ssa.Call:
+		if bi, ok := x.Call.Value.(*ssa.Builtin); ok && (bi.Name() == "len" || bi.Name() == "cap" || bi.Name() == "copy") {
+			return "length of data in memory"
+		}
+		if x.Call.IsInvoke() {
+			switch x.Call.Method.Name() {
+			case "BlockSize", "Size", "NonceSize", "Overhead", "Len":
+				return "size reported by a standard-library object"
+			}
+		}
+		if CalleesOfSite != nil {
+			cs := CalleesOfSite(x)
+			okAll := len(cs) > 0
+			for _, f := range cs {
+				if !InModule(f) || f.Blocks == nil {
+					okAll = false
+					break
+				}
+				for _, r := range Returns(f) {
+					if len(r.Results) < 1 || boundedAbove(r.Block(), r.Results[0], seen, d+1) == "" {
+						okAll = false
+					}
+				}
+			}
+			if okAll {
+				return "every callee returns a bounded value"
+			}
+		}
+	case *ssa.BinOp:
+		switch x.Op {
+		case token.ADD:
+			return all(x.X, x.Y)
+		case token.SUB, token.QUO, token.REM, token.SHR:
+			return all(x.X)
+		case token.MUL:
+			if k, ok := ConstInt(x.Y); ok && k <= 1<<16 {
+				return all(x.X)
+			}
+			if k, ok := ConstInt(x.X); ok && k <= 1<<16 {
+				return all(x.Y)
+			}
+		case token.AND:
+			if w := boundedAbove(b, x.X, seen, d+1); w != "" {
+				return w
+			}
+			return boundedAbove(b, x.Y, seen, d+1)
+		}
+	case *ssa.Phi:
+		return all(x.Edges...)
+	case *ssa.Convert:
+		return all(x.X)
+	case *ssa.UnOp:
+		if fa, ok := x.X.(*ssa.FieldAddr); ok && x.Op == token.MUL {
+			if fieldVarAll(fieldOf(fa), func(val ssa.Value, at *ssa.BasicBlock) bool { return boundedAbove(at, val, seen, d+1) != "" }) {
+				return "every store to the field is bounded"
+			}
+		}
+	case *ssa.Field:
+		if st, ok := x.X.Type().Underlying().(*types.Struct); ok && x.Field < st.NumFields() {
+			if fieldVarAll(st.Field(x.Field), func(val ssa.Value, at *ssa.BasicBlock) bool { return boundedAbove(at, val, seen, d+1) != "" }) {
+				return "every store to the field is bounded"
+			}
+		}
+	case *ssa.Parameter:
+		if CallersOf != nil && x.Parent() != nil {
+			sites := CallersOf(x.Parent())
+			idx := -1
+			for i, q := range x.Parent().Params {
+				if q == x {
+					idx = i
+				}
+			}
+			okAll := len(sites) > 0 && idx >= 0
+			for _, site := range sites {
+				c := site.Common()
+				args := c.Args
+				j := idx
+				if c.IsInvoke() {
+					j = idx - 1
+				}
+				if j < 0 || j >= len(args) || boundedAbove(site.Block(), args[j], seen, d+1) == "" {
+					okAll = false
+				}
+			}
+			if okAll {
+				return "every caller in the module passes a bounded value"
+			}
+		}
+	}
+	return ""
+}
+
+// fieldVarAll: the field is unexported, its address never escapes, and pred holds for every value stored to it
+// anywhere in the module.
+func fieldVarAll(f *types.Var, pred func(val ssa.Value, at *ssa.BasicBlock) bool) bool {
+	if f == nil || f.Exported() || len(fieldInvariantFuncs) == 0 {
+		return false
+	}
+	for _, fn := range fieldInvariantFuncs {
+		if fn.Pkg == nil || fn.Pkg.Pkg != f.Pkg() {
+			continue
+		}
+		ok := true
+		EachInstr(fn, func(in ssa.Instruction) {
+			a, isFA := in.(*ssa.FieldAddr)
+			if !isFA || fieldOf(a) != f {
+				return
+			}
+			for _, r := range *a.Referrers() {
+				switch u := r.(type) {
+				case *ssa.Store:
+					if u.Addr != ssa.Value(a) || !pred(u.Val, u.Block()) {
+						ok = false
+					}
+				case *ssa.UnOp:
+					if u.Op != token.MUL {
+						ok = false
+					}
+				case *ssa.DebugRef:
+				default:
+					ok = false
+				}
+			}
+		})
+		if !ok {
+			return false
+		}
+	}
+	return true
 }
 
 // lowerBoundExpr: a constant lower bound of an integer expression over guarded lengths: len(s), x+c, x-c, x*c, x/c.
